@@ -17,7 +17,7 @@ RULE = ('configuration = swarm size 1..6, argument dictionary (random tuples per
         'run-to-block policies. distinct_nontrivial = distinct (configuration, interleaving signature).')
 ASSUMPTIONS = ['members are duck-typed SyncCrazyflie stand-ins (open_link / close_link / cf); a subset of cases uses real '
                'SyncCrazyflie objects over the sim:// driver']
-REQUIRED = ['mon.parallel_safe', 'mon.parallel', 'mon.sequential', 'mon.open_failures', 'mon.double_open', 'mon.real_members',
+REQUIRED = ['mon.real_members_closed_while_their_parameter_callbacks_keep_the_incoming_thread_busy', 'mon.parallel_safe', 'mon.parallel', 'mon.sequential', 'mon.open_failures', 'mon.double_open', 'mon.real_members',
             'mon.actions_invoked', 'mon.argument_dictionaries_in_another_order',
             'mon.real_swarm_reopened_with_a_link_dropping_in_the_handshake', 'mon.actions_raising_errors_without_a_text_argument']
 DESC_TIMEOUT = 900
@@ -32,11 +32,19 @@ def cases(tier, seed):
             out.append({'n': n, 'part': 'open', 'S': S, 'seed': seed * 131 + n})
     for i in range(24 if tier == 'quick' else 96):
         out.append({'n': 3, 'part': 'real', 'S': 1, 'seed': seed * 1009 + i})
+    for i in range(288 if tier == 'quick' else 1200):
+        out.append({'n': 3, 'part': 'real', 'S': 1, 'seed': seed * 2003 + i, 'busy': True})
     return out
 
 
 class Fail(Exception):
     pass
+
+
+class _Fac:
+    """Swarm calls factory.construct(uri)."""
+    def __init__(self, f):
+        self.construct = f
 
 
 class Member:
@@ -303,6 +311,11 @@ def run_real(desc, ctx):
     rnd = random.Random(desc['seed'])
     uris = ['sim://swarm%d' % i for i in range(3)]
     bad = rnd.choice((None, None, uris[rnd.randrange(3)]))
+    busy = bool(desc.get('busy'))
+    if busy:
+        # the clean-up after a failed opening closes members that are still fetching their parameter values, while the
+        # application's parameter callbacks keep the thread that handles their incoming packets busy
+        bad = uris[rnd.randrange(3)]
     devs = {}
     # how the bad member fails: there is no such Crazyflie, or its link dies while the driver is still connecting
     # (reported from the connecting thread, from the driver's thread before connect() returns, or racing with its
@@ -312,8 +325,10 @@ def run_real(desc, ctx):
         if u == bad and bad_mode == 'missing':
             simlink.SIMS.pop(u, None)
             continue
-        devs[u] = simcf.SimCF(gen.profile(desc['seed'] + hash(u) % 97, 2, 3))
+        devs[u] = simcf.SimCF(gen.profile(desc['seed'] + hash(u) % 97, 2, rnd.randint(4, 14) if busy else 3))
         simlink.SIMS[u] = simlink.LinkSpec(devs[u])
+        if busy and rnd.random() < 0.7:
+            simlink.SIMS[u].latency = 0.0      # answers are in the driver's queue the moment the request has gone out
         if u == bad:
             if bad_mode == 'first_tx':
                 simlink.SIMS[u].fail_after_tx = 1
@@ -331,7 +346,24 @@ def run_real(desc, ctx):
     def fn(s):
         for d in devs.values():
             d.now = lambda: s.now
-        sw = Swarm(uris)
+        if busy:
+            import time as _time
+            from cflib.crazyflie import Crazyflie
+            from cflib.crazyflie.syncCrazyflie import SyncCrazyflie
+            brnd = random.Random(desc['seed'] ^ 0xB5)
+
+            def factory(uri):
+                cf = Crazyflie()
+
+                def slow_listener(name, value):
+                    ob['busy_callbacks'] = ob.get('busy_callbacks', 0) + 1
+                    for _ in range(brnd.randint(0, 12)):
+                        _time.sleep(0)          # (work: the thread stays runnable, no time passes)
+                cf.param.all_update_callback.add_callback(slow_listener)
+                return SyncCrazyflie(uri, cf=cf)
+            sw = Swarm(uris, factory=_Fac(factory))
+        else:
+            sw = Swarm(uris)
         try:
             with sw:
                 def act(scf, tag):
@@ -364,7 +396,15 @@ def run_real(desc, ctx):
             if ob['reopen_exc'] is None:
                 sw.close_links()
     reopen = bad is None and desc['seed'] % 2 == 0
-    _, abort, sch = harness.sched_case(fn, seed=desc['seed'], policy='random', horizon=2000.0)
+    if busy:
+        _, abort, sch = harness.sched_case(fn, seed=desc['seed'], policy='random', horizon=2000.0, line_p=0.01,
+                                           line_focus=('close', 'close_link', '_disconnected', '_disconnected_cb', 'close_links',
+                                                       '_new_packet_cb', '_close', 'run'), line_focus_p=0.4)
+        ctx.count('mon.real_members_closed_while_their_parameter_callbacks_keep_the_incoming_thread_busy',
+                  1 if ob.get('busy_callbacks') else 0)
+        ctx.count('mon.preemption_points_inside_the_closing_code', sch.focus_points)
+    else:
+        _, abort, sch = harness.sched_case(fn, seed=desc['seed'], policy='random', horizon=2000.0)
     ctx.evals()
     ctx.count('mon.real_members')
     info = {'uris': uris, 'unreachable': bad, 'how_it_fails': bad_mode}
